@@ -306,7 +306,9 @@ predefine_macro(CPPParser& parser, const string& inoption) {
     macro_name = inoption.substr(0, eq);
     macro_def = inoption.substr(eq + 1);
   } else {
+    // -DNAME is the same as -DNAME=1, as for a compiler.
     macro_name = inoption;
+    macro_def = "1";
   }
 
   CPPManifest *macro = new CPPManifest(parser, macro_name, macro_def);
